@@ -1,6 +1,7 @@
 // C05: matrix factorizations reproduce their input with the promised structure.
 // Exhaustive small-scope enumeration over integer matrix lattices × every option
-// combination × {Float64, Real64}; oracles are the reference-free defining equations
+// combination × {Float64, Real64} (× {Float32, Real32} for routines that dispatch on the
+// element type: cholesky); oracles are the reference-free defining equations
 // evaluated in plain float64 arithmetic (never with the library's own matrix products),
 // the exact integer characteristic polynomial for spectra, and exact integer
 // Sylvester/rank tests for admissibility.
@@ -218,8 +219,6 @@ func lattices(thorough bool) []lattice {
 	return ls
 }
 
-var elems = []string{"Float64", "Real64"}
-
 var debug = os.Getenv("C05_DEBUG") != ""
 
 func report(c *vf.Ctx, cs *Case, out *outcome, rank int64) {
@@ -227,11 +226,19 @@ func report(c *vf.Ctx, cs *Case, out *outcome, rank int64) {
 		c.HarnessError(fmt.Sprintf("%s on %+v", out.harnessE, *cs))
 		return
 	}
+	if out.status == "excluded32" {
+		// 32 bit element types: input not a float32 matrix, or a pivot at the float32 rounding level
+		c.Count("excluded_32bit:not_representable_or_pivot_at_rounding_level", 1)
+		return
+	}
 	c.Eval(1)
 	if out.status == "discarded" {
 		// an earlier call of the history failed: judged where it is the last call
 		c.Count("history_discarded:earlier_call_failed", 1)
 		return
+	}
+	if is32(cs.Elem) && out.status == "ok" {
+		c.Count("cases_on_32bit_element_types:"+cs.Elem, 1)
 	}
 	if out.status == "budget" {
 		c.Count("excluded_over_tick_budget(C20)", 1)
@@ -329,15 +336,24 @@ func minimise(cs *Case, what string) (string, string) {
 		}
 	}
 	opts := strings.Join(toks, ",")
-	other := "Real64"
-	if cs.Elem == "Real64" {
-		other = "Float64"
+	return opts, elemKey(cs.Routine, cs.Elem, func(el string) bool { return failsWith(opts, el) })
+}
+
+// elemKey names the element types on which a failure shows: the type of the case if no other
+// type of the routine fails alike, "any" if all do, otherwise the failing types joined in
+// the order of elemsFor (e.g. "Real64+Real32": the generic instantiation).
+func elemKey(routine, elem string, failsOn func(elem string) bool) string {
+	all := elemsFor(routine)
+	var bad []string
+	for _, el := range all {
+		if el == elem || failsOn(el) {
+			bad = append(bad, el)
+		}
 	}
-	elem := cs.Elem
-	if failsWith(opts, other) {
-		elem = "any"
+	if len(bad) == len(all) {
+		return "any"
 	}
-	return opts, elem
+	return strings.Join(bad, "+")
 }
 
 // runner carries the state shared by all cases of a shard: the number of confirmed
@@ -433,7 +449,7 @@ func run(c *vf.Ctx) {
 					continue
 				}
 				for oi, o := range p.opts {
-					for ei, e := range elems {
+					for ei, e := range elemsFor(p.routine) {
 						cs := &Case{Routine: p.routine, Opts: o, Elem: e, R: l.r, C: l.c, Base: base, Graded: l.graded, Exp2: e2, Family: l.family}
 						rn.exec(cs, rank+int64(oi)+int64(ei)*100, over, idx%4099 == 0 && oi == 1 && ei == 0)
 					}
@@ -451,6 +467,7 @@ func main() {
 		Level: "exploration",
 		Rule: "every matrix of the integer lattices (1x1,2x2 over {-2..2}; 3x3 over {-1,0,1} quick / {-2..2} thorough; symmetric 3x3 {-2..2} and 4x4 {-1,0,1} thorough; tall 2x1,3x1,4x1 {-2..2}, 3x2,4x2 {-1,0,1} quick, 3x2,4x2 {-2..2} and 4x3 {-1,0,1} thorough; graded D·A·D⁻¹ thorough) × every routine admissible for it " +
 			"(square/symmetric/SPD by exact integer Sylvester test/full column rank by exact Gram determinant) × every option combination × {Float64,Real64} is executed; " +
+			"a routine that dispatches on the element type (cholesky, its LDL and forced-positive-definite variants: Float32, Float64 and generic instantiations) is run on {Float64,Real64,Float32,Real32} in every lattice, family and history it takes part in, with the InSitu object, its buffers and the junk of the element type of the input; " +
 			"families: SPD 3x3 over the wide alphabet (diag 1,3,10,30,100; off-diag 0,±1,±3,±10,±30) and graded SPD 4x4 D·M·D through every Cholesky/LDL/ForcePD option product; ill-conditioned tall matrices (Läuchli [w;2^-k·I] 4x3 and 5x4, ones+2^-k·C 3x3 and 4x3, cond up to 2^34 by an exact Gram-matrix bound) through gramSchmidt/bidiag/svd; " +
 			"6x6 block triangular matrices (all orders of 1x1 and 2x2 diagonal blocks, both orientations) through hessenberg/qrAlgorithm/eigensystem; " +
 			"eigensystem option sets include the QR algorithm's options handed through it (qrAlgorithm.Epsilon, qrAlgorithm.Symmetric with and without eigensystem.Symmetric, qrAlgorithm.ComputeU true/false); " +
@@ -460,6 +477,7 @@ func main() {
 			"a case is non-trivial when the routine returned factors and the input did not already have the promised middle-factor structure (diagonal/triangular/bidiagonal/tridiagonal/Hessenberg/identity)",
 		Assume: []string{
 			"tolerance 1e-9·max(1,‖A‖_F) for defining equations; eigenvalues compared with (1e-9)^(1/k)·‖A‖ for a root of exact multiplicity k",
+			"32 bit element types (Float32, Real32): tolerance 2^10·u·max(1,‖A‖_F) with u=2^-24; the input must be exactly a float32 matrix (all lattices and families of cholesky are integers below 2^24) and, if positive definite, every pivot of its LDLᵀ recurrence must be >= 64·n·u·max a_ii (else excluded and counted; no member of the present lattices is); factors are read back through GetFloat64 and the defining equations are evaluated in float64",
 			"msqrt/msqrtInv are fixed-threshold iterations: residual tolerance 1e-7·‖A‖",
 			"gramSchmidt is modified Gram–Schmidt: ‖QᵀQ−I‖ <= 1e3·u·cond(A) with u=2^-53 and cond(A) <= ‖A‖_F/σ_min from the exact Gram matrix (big integers; Newton from below on its characteristic polynomial); Householder/Givens based routines keep the fixed 1e-8",
 			"ill-conditioned families: members with cond bound > 2^34 or exactly rank deficient are skipped (bounded condition number); singular values are not compared with a reference there",
